@@ -280,6 +280,7 @@ Spl(g, e, line) ==
              /\ Chk("MACHINERY.GeneratedCaseIsExactSolution", line, SplExactSolution(x, r, e))
              /\ Chk("C13.LimitedNodesIdentified", line, SplLimitedCount(x, e))
              /\ Chk("C13.SolvesImplicitEquation", line, SplEncloses(x, r, e))
+             /\ Chk("C13.ResidualWithinTolerance", line, SplResidualSharp(x, r, e))
   /\ UNCHANGED fvars
 
 BasinGraphObs(g, b, line) ==
